@@ -30,22 +30,31 @@ def phase1_branch(f):
 
 @rule("R11.1", min_instances=10, desc="promotion shape: FreeTime(T) -> set_T(variable()), guess T_init, exactly one constraint T>=0; FreeTime(t0) -> variable and guess, no constraint; otherwise the declared value is returned unchanged")
 def r11_1(ctx):
+    """Decided on the three paths of each handler (phase 1 with a FreeTime, phase 1 without, any later phase), whatever way the
+    branches are written: the statements executed on each path are collected by a deterministic walk under the path's truth values."""
+    from ..ceval import run_path, Unknown
     P = ctx.prog
     for which, attr, setter, nconstr in (("T", "_T", "set_T", 1), ("t0", "_t0", "set_t0", 0)):
         f = P.own_method("DirectMethod", "fill_placeholders_" + which)
         sc = ctx.scope(f)
-        b = phase1_branch(f)
-        ctx.check(b is not None, "fill_placeholders_%s has a phase-1 branch" % which, detail="phase structure", expected="if phase==1", found="missing", fi=f)
-        if b is None:
+        phase = f.params[1]
+        free_test = "isinstance(stage.%s, FreeTime)" % attr
+        tests = {ast.unparse(t) for st in ast.walk(f.node) if isinstance(st, (ast.If, ast.IfExp)) for t in [st.test]}
+        ctx.check(any(phase in t for t in tests), "fill_placeholders_%s has a phase-1 branch" % which, detail="phase structure", expected="a test on phase", found=sorted(tests), fi=f)
+        ctx.check(free_test in tests, "fill_placeholders_%s promotes exactly when the declaration is a FreeTime" % which, detail="promotion condition", expected=free_test, found=sorted(tests), fi=f)
+        paths = {}
+        for label, env in (("free", {phase: 1, free_test: True}), ("fixed", {phase: 1, free_test: False}), ("later", {phase: 2, free_test: True}), ("later-fixed", {phase: 2, free_test: False})):
+            try:
+                paths[label] = run_path(f.node.body, env, None)
+            except Unknown as e:
+                paths[label] = None
+                ctx.fail("free %s: variable, constraint and guess are unconditional" % which if label == "free" else "fill_placeholders_%s path %s is decided by phase and declaration alone" % (which, label),
+                         detail="the promotion (in particular T>=0) depends on something else than the declaration being a FreeTime", expected="no further condition", found="undecidable test: %s" % e, fi=f)
+        if paths.get("free") is None:
             continue
-        inner = [i for i in b.body if isinstance(i, ast.If)]
-        ok = len(inner) == 1 and ast.unparse(inner[0].test) == "isinstance(stage.%s, FreeTime)" % attr
-        ctx.check(ok, "fill_placeholders_%s promotes exactly when the declaration is a FreeTime" % which, detail="promotion condition", expected="isinstance(stage.%s, FreeTime)" % attr,
-                  found="; ".join(ast.unparse(i.test) for i in inner), fi=f)
-        if not ok:
-            continue
-        free, fixed = inner[0].body, inner[0].orelse
-        calls = [c for st in free for c in ast.walk(st) if isinstance(c, ast.Call)]
+        done, ex = paths["free"]
+        calls = [c for st in done for c in ast.walk(st) if isinstance(c, ast.Call)]
+        # statements that sit under the user's-own-guess lookup (try/except KeyError) are on this path too: they only read
         setc = [c for c in calls if is_call_to(c, setter, "stage")]
         ok = len(setc) == 1 and len(setc[0].args) == 1 and ast.unparse(setc[0].args[0]) == "stage.variable()"
         ctx.check(ok, "free %s becomes one scalar decision variable" % which, detail="promotion", expected="stage.%s(stage.variable())" % setter, found="; ".join(ast.unparse(c) for c in setc), fi=f)
@@ -53,32 +62,38 @@ def r11_1(ctx):
         ok = len(subj) == nconstr and all(Norm(None).key(c.args[0]) == Norm(None).key(ast.parse("stage.%s>=0" % attr, mode="eval").body) for c in subj)
         ctx.check(ok, "free %s adds %s" % (which, "exactly the constraint T>=0" if nconstr else "no constraint"), detail="extra or missing constraint on the horizon variable",
                   expected="%d constraint(s)%s" % (nconstr, " stage._T>=0" if nconstr else ""), found="; ".join(ast.unparse(c) for c in subj), fi=f, sample={"constraints": [ast.unparse(c) for c in subj]})
-        # the promotion steps run whenever the declaration is a FreeTime: no further condition inside the free branch
-        # (a try/except around the lookup of the user's own guess is not a condition on these steps)
-        cond = []
-        for c in setc + subj + [x for x in calls if is_call_to(x, "set_initial", "stage")]:
-            gs = [ast.unparse(t) for t, pol in sc.guards(c) if ast.unparse(t) not in ("phase == 1", "isinstance(stage.%s, FreeTime)" % attr)]
-            if gs:
-                cond.append("%s if %s" % (ast.unparse(c)[:40], " and ".join(gs)))
-        ctx.check(not cond, "free %s: variable, constraint and guess are unconditional" % which, detail="the promotion (in particular T>=0) depends on something else than the declaration being a FreeTime",
-                  expected="no condition inside the FreeTime branch", found="; ".join(cond), fi=f)
+        ctx.ok("free %s: variable, constraint and guess are unconditional" % which, fi=f)
         ini = [c for c in calls if is_call_to(c, "set_initial", "stage")]
-        initd = [st for st in free if isinstance(st, ast.Assign) and ast.unparse(st.value) == "stage.%s.T_init" % attr]
+        initd = [st for st in done if isinstance(st, ast.Assign) and ast.unparse(st.value) == "stage.%s.T_init" % attr]
+        order = {id(st): i_ for i_, st in enumerate(done)}
+        def pos(c):
+            for st in done:
+                if any(x is c for x in ast.walk(st)):
+                    return order[id(st)]
+            return -1
         ok = len(ini) == 1 and len(initd) == 1 and ast.unparse(ini[0].args[0]) == "stage.%s" % attr and ast.unparse(ini[0].args[1]) == ast.unparse(initd[0].targets[0]) \
-            and bool(setc) and sc.order[initd[0]] < sc.order[setc[0]] < sc.order[ini[0]]
+            and bool(setc) and order[id(initd[0])] < pos(setc[0]) < pos(ini[0])
         if ok:
             pk = [k for k in ini[0].keywords if k.arg == "priority"]
             ok = not pk or (isinstance(pk[0].value, ast.Constant) and pk[0].value.value is True)
         ctx.check(ok, "free %s starts from the declared guess" % which, detail="guess of the horizon variable (applied with priority, so that a user's own guess for the horizon overrides it)", expected="init = stage.%s.T_init (read before promotion); stage.set_initial(stage.%s, init)" % (attr, attr),
                   found="; ".join(ast.unparse(c) for c in ini), fi=f)
-        rets_free = [ast.unparse(r.value) for st in free for r in ast.walk(st) if isinstance(r, ast.Return)]
-        rets_fixed = [ast.unparse(r.value) for st in fixed for r in ast.walk(st) if isinstance(r, ast.Return)]
-        ctx.check(rets_free == ["stage.%s" % attr] and rets_fixed == ["stage.%s" % attr] and len([c for st in fixed for c in ast.walk(st) if isinstance(c, ast.Call)]) == 0,
-                  "the %s placeholder resolves to the declaration (fixed: unchanged, no side effects)" % which, detail="fixed horizon altered", expected="return stage.%s on both branches" % attr,
-                  found="%s / %s" % (rets_free, rets_fixed), fi=f)
-        after = [st for st in f.node.body if st is not b]
-        rets2 = [Norm(None).key(r.value) for st in after for r in ast.walk(st) if isinstance(r, ast.Return) and r.value is not None]
-        ctx.check(rets2 == ["self.eval(stage,%s)" % f.params[3]], "phase 2 evaluates the %s declaration through the common substitution" % which, detail="phase 2", expected="return self.eval(stage, expr)", found=rets2, fi=f)
+        ret_free = ast.unparse(ex.value) if isinstance(ex, ast.Return) and ex.value is not None else None
+        okr = ret_free == "stage.%s" % attr
+        if paths.get("fixed") is not None:
+            d2, e2 = paths["fixed"]
+            ret_fixed = ast.unparse(e2.value) if isinstance(e2, ast.Return) and e2.value is not None else None
+            okr = okr and ret_fixed == "stage.%s" % attr and not [c for st in d2 for c in ast.walk(st) if isinstance(c, ast.Call)]
+        else:
+            ret_fixed = None
+        ctx.check(okr, "the %s placeholder resolves to the declaration (fixed: unchanged, no side effects)" % which, detail="fixed horizon altered", expected="return stage.%s on both branches" % attr,
+                  found="%s / %s" % (ret_free, ret_fixed), fi=f)
+        rets2 = []
+        for label in ("later", "later-fixed"):
+            if paths.get(label) is not None:
+                d3, e3 = paths[label]
+                rets2.append(Norm(None).key(e3.value) if isinstance(e3, ast.Return) and e3.value is not None and not [c for st in d3 for c in ast.walk(st) if isinstance(c, ast.Call)] else None)
+        ctx.check(bool(rets2) and all(r == "self.eval(stage,%s)" % f.params[3] for r in rets2), "phase 2 evaluates the %s declaration through the common substitution" % which, detail="phase 2", expected="return self.eval(stage, expr)", found=rets2, fi=f)
 
 
 @rule("R11.10", min_instances=2, desc="a stage created from a template with its own horizon declaration (ocp.stage(template, T=.., t0=..)) does not inherit the template's guess for that horizon")
